@@ -318,6 +318,7 @@ def tok_fragment_guess(tok):
     """the token without its descriptors (valid SMILES when descriptors sit in branches or at chain ends)"""
     import re
     t = render_token(tok, ext=False)
+    render_token(tok)          # leave tok.text in its extension form
     t = re.sub(r"[=#]?\[[$<>][0-9]*\][=#]?", "", t)
     t = t.replace("()", "")
     return t
